@@ -222,6 +222,10 @@ type Reply struct {
 	Error  *RPCError       `json:"error,omitempty"`
 }
 
+// OmitResult as a Reply's Result: the element is written without a result
+// member (and without an error).
+var OmitResult = json.RawMessage("\x00")
+
 func (r Reply) MarshalJSON() ([]byte, error) {
 	var sb strings.Builder
 	sb.WriteString(`{"jsonrpc":"2.0","id":`)
@@ -234,6 +238,8 @@ func (r Reply) MarshalJSON() ([]byte, error) {
 		e, _ := json.Marshal(r.Error)
 		sb.WriteString(`,"error":`)
 		sb.Write(e)
+	} else if string(r.Result) == string(OmitResult) {
+		// neither a result nor an error member
 	} else {
 		sb.WriteString(`,"result":`)
 		if len(r.Result) == 0 {
